@@ -109,6 +109,10 @@ func Run(d *fw.Driver, res *fw.Result, seed int64, thorough bool) error {
 	if err := silentAfterReconnect(res, seed, base); err != nil {
 		return err
 	}
+	base += 20
+	if err := healNearTimeout(res, seed, base); err != nil {
+		return err
+	}
 	return slowPeer(res)
 }
 
@@ -376,3 +380,54 @@ func silent(d *fw.Driver, res *fw.Result, seed int64, p pt, when string, base in
 }
 
 var _ = json.Marshal
+
+// healNearTimeout: a connection is lost and the redial succeeds shortly before the idle timer — armed when the
+// old connection was lost — is due.  The fresh connection is healthy and idle: it must not be closed by a
+// timer that measures the silence of its predecessor.
+func healNearTimeout(res *fw.Result, seed int64, base int) error {
+	const P, T = 100 * time.Millisecond, 600 * time.Millisecond
+	e, err := scen.NewEnv(seed+77, 0, jsonrpc.WithServerPingInterval(5*time.Second))
+	if err != nil {
+		return err
+	}
+	defer e.Close()
+	ctx, cancel := context.WithCancel(context.Background())
+	defer cancel()
+	cl, closer, err := e.Client(ctx, jsonrpc.WithPingInterval(P), jsonrpc.WithTimeout(T), jsonrpc.WithReconnectBackoff(10*time.Millisecond, 20*time.Millisecond))
+	if err != nil {
+		return err
+	}
+	defer scen.WithTimeout(3*time.Second, closer)
+	if err := scen.WarmUp(func() error { _, err := cl.Count(ctx, base+1); return err }); err != nil {
+		return fmt.Errorf("warm-up call failed: %v", err)
+	}
+	sig := "redial completes shortly before the old idle timer is due"
+	c := map[string]interface{}{"scenario": "heal-near-timeout", "ping": P.String(), "timeout": T.String()}
+	probe := scen.StartLagProbe()
+	n0 := e.PX.Accepted()
+	e.PX.SetRefuse(true)
+	t0 := time.Now()
+	e.PX.Cut(0, "rst")
+	time.Sleep(T - 70*time.Millisecond - time.Since(t0))
+	e.PX.SetRefuse(false)
+	// the second connection
+	for w := 0; w < 400 && e.PX.Accepted() < n0+1; w++ {
+		time.Sleep(time.Millisecond)
+	}
+	healedAt := time.Since(t0)
+	// idle for a timeout and a half: no third connection may appear
+	time.Sleep(T + T/2)
+	lag := probe.Stop()
+	n := e.PX.Accepted()
+	res.Count("heal-near-timeout")
+	res.Eval(true, []interface{}{"heal-near-timeout"})
+	switch {
+	case lag > T/6 || healedAt > T-20*time.Millisecond || healedAt < T-P:
+		// the environment did not deliver the schedule (the redial must land inside the last ping interval before the timer)
+		res.Count("heal-near-timeout.inconclusive-schedule")
+	case n != n0+1:
+		res.Add(fw.Finding{Kind: "monitor", Signature: sig + " healthy link dropped",
+			Detail: fmt.Sprintf("the link re-established %v after the loss (timeout %v, ping %v) was healthy and idle, yet %d further connection(s) were opened within the next %v: the idle timer armed at the loss closed the new connection", healedAt.Round(time.Millisecond), T, P, n-n0-1, T+T/2), Case: c})
+	}
+	return nil
+}
